@@ -268,8 +268,22 @@ def model_run(lines, shards=None, timeout=3600):
 
 
 # ---------------------------------------------------------------- Rust harness
-def harness_build(bins, profiles=("debug", "release")):
+def harness_dir():
+    """the harness crate; when MP4_REPO points elsewhere than /repo a copy with the dependency path rewritten is used"""
     hdir = os.path.join(VERIF, "harness")
+    if os.path.realpath(REPO) == "/repo":
+        return hdir
+    alt = os.path.join(WORK, "harness_alt")
+    if os.path.exists(alt):
+        shutil.rmtree(alt)
+    shutil.copytree(hdir, alt, ignore=shutil.ignore_patterns("target"))
+    p = os.path.join(alt, "Cargo.toml")
+    open(p, "w").write(open(p).read().replace('path = "/repo"', 'path = "%s"' % REPO))
+    return alt
+
+
+def harness_build(bins, profiles=("debug", "release")):
+    hdir = harness_dir()
     lock = os.path.join(REPO, "Cargo.lock")
     if os.path.exists(lock):
         dst = os.path.join(hdir, "Cargo.lock")
